@@ -11,7 +11,9 @@ RULE = ("explicit-state BFS over histories of hash contexts; letters: update(l),
         "observed probe digests) and runs until the frontier is empty for <= 4B+1 bytes; in every state finalize(clone), "
         "finalize(clone+1 byte) and finalize(clone+B+1 bytes) must equal the reference digest of the bytes fed since the last "
         "reset; a case is non-trivial when at least one non-empty chunk was fed; distinct = distinct program text"
-        " Also: a big-chunk system (5..20 whole blocks per call, every remainder size, depth 2/3) and BLAKE2 contexts whose byte counters were preset next to / beyond their word boundaries (hook) followed by every kind of reset; the corpus again on the checked-arithmetic build, the graph / big-chunk / counter shards of SHA-256 and BLAKE2 on the vector builds.")
+        " Also: a big-chunk system (5..20 whole blocks per call, every remainder size, depth 2/3) and BLAKE2 contexts whose byte counters were preset next to / beyond their word boundaries (hook) followed by every kind of reset; the corpus again on the checked-arithmetic build, the graph / big-chunk / counter shards of SHA-256 and BLAKE2 on the vector builds."
+        " Interference: one history per object type with the programs of every other object type (25 bystander programs: hash contexts, one-shots, MACs, legacy digests, stream ciphers, DRG, AEAD, KDFs, Argon2, X25519, Ed25519) woven between its steps, round-robin and whole-program-after-every-step."
+        " Many calls: 66000 one-byte / three-byte / empty updates on one context of every variant, then reuse.")
 ASSUMPTIONS = ["hashlib / validated Keccak model as in C01",
                "chunk content is a position-determined byte pattern (content alphabet, not content space)",
                "graph mode merges two histories only when the model state is equal and the probe digests of the live object are equal"]
@@ -211,7 +213,7 @@ def _nontrivial(ops, meta):
 
 def shards(tier):
     sp = specs()
-    return [("shard_tree", i) for i in range(len(sp))] + [("shard_graph", i) for i in range(len(sp))] + [("shard_counter_reuse", None)] + [("shard_big", i) for i in range(len(sp))]
+    return [("shard_tree", i) for i in range(len(sp))] + [("shard_graph", i) for i in range(len(sp))] + [("shard_many_calls", k) for k in range(6)] + [("shard_counter_reuse", None), ("shard_interference", None)] + [("shard_big", i) for i in range(len(sp))]
 
 
 def shard_big(i, tier):
@@ -220,6 +222,54 @@ def shard_big(i, tier):
     real = ck.run
     ck.run = lambda cases, nontrivial=True, count_trace=True: real(cases, nontrivial=_nontrivial, count_trace=count_trace)
     explorer.explore(BigChunkSystem(spec, tier), ck, "tree", 3 if tier == "thorough" else 2)
+    return ck.stats
+
+
+def own_programs():
+    """one reuse history per variant (feed, clone, finalize-and-reset, feed again, finalize both), with model digests"""
+    from .common import CTX
+    out = []
+    for variant, (kind, oneshot, B, D) in CTX.items():
+        a, b = pat(5, 0, B + 3), pat(5, 9, 2 * B - 1)
+        out.append((["hnew s0 %s" % " ".join(kind), "update_mut s0 %s" % P(5, 0, B + 3), "hclone s0 s1", "fin_reset s0", "update_mut s0 %s" % P(5, 9, 2 * B - 1),
+                     "update_mut s1 %s" % P(5, 9, 2 * B - 1), "fin s0", "fin s1"],
+                    ["-", "-", "-", obs_of(hashes.digest(variant, a)), "-", "-", obs_of(hashes.digest(variant, b)), obs_of(hashes.digest(variant, a + b))], None))
+    return out
+
+
+def shard_interference(_, tier):
+    """the reuse history of every variant with the programs of every other object type (props/common.py: bystanders) woven between its
+    steps, two ways: a context's answers must not depend on which other objects exist or were used in between"""
+    from .common import interference_cases
+    ck = core.Checker(PROPERTY_ID)
+    cs = interference_cases(own_programs())
+    ck.run(cs, nontrivial=lambda ops, meta: True)
+    ck.stats.states += len(cs)
+    return ck.stats
+
+
+MANY = 66000
+
+
+def shard_many_calls(part, tier):
+    """very many calls on one context: 66000 one-byte updates (more than 2^16 calls), 66000 empty updates before, between and after real
+    input, 66000 three-byte updates; then finalize-and-reset and a short second message"""
+    from .common import CTX
+    ck = core.Checker(PROPERTY_ID)
+    cases = []
+    for variant, (kind, oneshot, B, D) in list(CTX.items())[part::6]:
+        new = "hnew s0 %s" % " ".join(kind)
+        one, three = pat(5, 0, 1), pat(5, 0, 3)
+        tail = pat(5, 9, 3)
+        dt = obs_of(hashes.digest(variant, tail))
+        cases.append(([new, "update_rep s0 %s %d" % (P(5, 0, 1), MANY), "fin_reset s0", "update_mut s0 %s" % P(5, 9, 3), "fin s0"],
+                      ["-", "-", obs_of(hashes.digest(variant, one * MANY)), "-", dt], None))
+        cases.append(([new, "update_rep s0 %s %d" % (P(5, 0, 3), MANY), "fin_reset s0", "update_mut s0 %s" % P(5, 9, 3), "fin s0"],
+                      ["-", "-", obs_of(hashes.digest(variant, three * MANY)), "-", dt], None))
+        cases.append(([new, "update_rep s0 h: %d" % MANY, "update_mut s0 %s" % P(5, 0, B + 1), "update_rep s0 h: %d" % MANY, "update_mut s0 %s" % P(5, 9, 3), "update_rep s0 h: 300", "fin s0"],
+                      ["-", "-", "-", "-", "-", "-", obs_of(hashes.digest(variant, pat(5, 0, B + 1) + tail))], None))
+    ck.run(cases, nontrivial=lambda ops, meta: True)
+    ck.stats.states += len(cases)
     return ck.stats
 
 
